@@ -35,6 +35,10 @@ static std::map<std::string, Profile> build_profiles() {
         Profile p; p.name = "defer"; p.w_enqueue = 2; p.w_drain = 1; p.w_defer = 2; p.post_rate = 0.3; p.post_defer = true;
         p.cond_defer = true; p.min_ops = 5; p.max_ops = 18; add(p);
     }
+    {   // long-lived machines: hundreds of ops in one run (counters that wrap, queues that grow and drain many times)
+        Profile p; p.name = "long"; p.w_enqueue = 2; p.w_drain = 1; p.w_drain1 = 1; p.w_defer = 2; p.post_rate = 0.15; p.post_defer = true;
+        p.cond_defer = true; p.min_ops = 180; p.max_ops = 420; add(p);
+    }
     {   // deferral checked against the documented semantics only (no quirks): demonstrates known finding KF-2
         Profile p; p.name = "defer_strict"; p.strict_model = true; p.min_ops = 5; p.max_ops = 14; add(p);
     }
